@@ -1,14 +1,17 @@
 #!/bin/bash
-# usage: tools/mutcheck.sh <patch.diff> <Cxx> [quick|thorough]  -- applies a seeded change to /repo, runs the check, reverts.
+# usage: tools/mutcheck.sh <patch.diff> <Cxx> [quick|thorough]
+# Applies a seeded change to a scratch worktree of /repo (never to /repo itself), runs the
+# check against that worktree (VERIF_REPO), prints the verdict lines, removes the worktree.
 set -u
 P="$(realpath "$1")"; ID="$2"; T="${3:-quick}"
-cd /repo || exit 2
-if [ -n "$(git status --porcelain)" ]; then echo "repo not clean"; exit 2; fi
-if ! git apply "$P" 2>/dev/null && ! git apply --3way "$P" 2>/dev/null; then echo "APPLY-FAILED $P"; git reset -q --hard; exit 3; fi
-( export GOFLAGS=-mod=mod GOPROXY=off GOSUMDB=off GOTOOLCHAIN=local; go build ./... ) || { echo "MUTANT DOES NOT BUILD"; git checkout -- .; git reset -q; exit 4; }
-cd /verif && VERIF_DIR_KEEP=1 ./check "$ID" "$T" > /tmp/mutcheck.$$.log 2>&1; rc=$?
-grep -a "^VIOLATION\|^SUMMARY\|^INTERNAL\|^INCONC" /tmp/mutcheck.$$.log | cut -c1-220 | head -8
-grep -a "^  sig=" /tmp/mutcheck.$$.log | sort | uniq -c | head -8
-rm -f /tmp/mutcheck.$$.log
-cd /repo && git reset -q && git checkout -- . && git clean -fdq
+W=$(mktemp -d /tmp/mutwt.XXXXXX); O=$(mktemp -d /tmp/mutout.XXXXXX)
+git -C /repo worktree add --detach -q "$W" HEAD 2>/dev/null || { rmdir "$W"; git -C /repo worktree add --detach -q "$W" HEAD; }
+cleanup() { git -C /repo worktree remove --force "$W" 2>/dev/null; rm -rf "$W" "$O"; git -C /repo worktree prune; }
+trap cleanup EXIT
+cd "$W" || exit 2
+if ! git apply "$P" 2>/dev/null && ! git apply --3way "$P" 2>/dev/null; then echo "APPLY-FAILED $P"; exit 3; fi
+( export GOFLAGS=-mod=mod GOPROXY=off GOSUMDB=off GOTOOLCHAIN=local; go build ./... ) || { echo "MUTANT DOES NOT BUILD"; exit 4; }
+cd /verif && VERIF_REPO="$W" VERIF_OUT_DIR="$O" ./check "$ID" "$T" > "$O/log" 2>&1; rc=$?
+grep -a "^VIOLATION\|^SUMMARY\|^INTERNAL\|^INCONC" "$O/log" | cut -c1-220 | head -6
+grep -a "^  sig=" "$O/log" | sort | uniq -c | head -8
 echo "exit=$rc"
